@@ -64,6 +64,33 @@ def main():
                 if b[m] > fired_by + 1e-9:
                     return dict(reproduced=True, call='delay_simulate fixed delay %r seed=%d dt=%r row %d' % (d, seed, dt, m),
                                 observed=float(b[m]), expected='<= %r (firings old enough)' % float(fired_by))
+                # ... and not later than the delay either: what had fired by a row at least d + 2*dt earlier is delivered in this row
+                # (a delayed reactant only lowers C, B counts deliveries)
+                js = np.nonzero(T <= T[m] - d - 2 * dt)[0]
+                if len(js) and b[m] < (A0 - a[js[-1]]) - 1e-9:
+                    return dict(reproduced=True, call='delay_simulate fixed delay %r seed=%d dt=%r row %d' % (d, seed, dt, m),
+                                observed=float(b[m]), expected='>= %r (firings older than the delay plus two slots)' % float(A0 - a[js[-1]]))
+    # a reporting grid that starts after the interface's initial time: the run still starts at the initial time and deliveries still
+    # happen at firing time + delay, so with every firing and every delivery over long before the first reported time the first row shows them all
+    for it in range(SPEC.get('offset_rounds', 6)):
+        kind = rng.choice(['fixed', 'gaussian', 'gamma'])
+        dpar = {'fixed': {'delay': 0.5}, 'gaussian': {'mean': 0.5, 'std': 0.1}, 'gamma': {'k': 4.0, 'theta': 0.1}}[kind]
+        A0 = rng.randint(5, 40)
+        M = Model(species=['A', 'B'], reactions=[(['A'], [], 'massaction', {'k': 4.0}, kind, [], ['B'], dpar)], initial_condition_dict={'A': A0, 'B': 0})
+        dt = rng.choice([0.125, 0.25])
+        t0 = rng.choice([10.0, 16.0])
+        T = np.arange(t0, t0 + 3, dt)
+        seed = rng.randint(1, 10 ** 6)
+        py_seed_random(seed)
+        itf = ModelCSimInterface(M)
+        itf.py_set_dt(dt)
+        q = ArrayDelayQueue.setup_queue(1, len(T), dt)
+        X = DelaySSASimulator().py_delay_simulate(itf, q, T).py_get_result()
+        s2i = M.get_species2index()
+        n += 1
+        if X[0, s2i['A']] == 0 and X[0, s2i['B']] != A0:      # (A exhausted by t0 with probability 1 - 40*exp(-40))
+            return dict(reproduced=True, call='delay_simulate %s %r seed=%d on np.arange(%r, %r, %r) with the interface starting at time 0' % (kind, dpar, seed, t0, t0 + 3, dt),
+                        observed=dict(first_rows_of_B=X[:4, s2i['B']].tolist()), expected='B == %d from the first row on (every firing and delivery happened long before %r)' % (A0, t0))
     return dict(reproduced=False, evaluations=n)
 
 
